@@ -179,6 +179,7 @@ fn prop_prefix(prop: &str) -> &'static str {
         p if p.starts_with("C01") => "content",
         "C03" => "durability",
         "C13" => "stack",
+        "C07" => "prune",
         "C16" => "names",
         "C20" => "resources",
         "C09" => "queue",
